@@ -132,6 +132,31 @@ _UPPER = z3.Function('py_upper', z3.StringSort(), z3.StringSort())
 _STRIP = z3.Function('py_strip', z3.StringSort(), z3.StringSort())
 
 
+_REPL1 = z3.Function('py_replace1', z3.StringSort(), z3.StringSort(), z3.StringSort(), z3.StringSort())
+_EXPAND = z3.Function('lower_expansion', z3.StringSort(), z3.IntSort())
+_EXPANDING = None
+
+
+def expanding_code_points():
+    """code points whose str.lower() is longer than one character: computed from the running CPython"""
+    global _EXPANDING
+    if _EXPANDING is None:
+        _EXPANDING = [chr(c) for c in range(0x110000) if len(chr(c).lower()) != 1]
+    return _EXPANDING
+
+
+def replace1(I, s, a, b):
+    """s.replace(a, b) with two one-character literals: a pointwise map, hence length preserving"""
+    t = I.term(s)
+    r = _REPL1(t, z3.StringVal(a), z3.StringVal(b))
+    key = ('repl1', r.get_id())
+    if key not in I.p.ghost:
+        I.p.ghost[key] = r
+        keep = [z3.Contains(r, z3.StringVal(e)) == z3.Contains(t, z3.StringVal(e)) for e in expanding_code_points() if e not in (a, b)]
+        I.p.assume(z3.And(z3.Length(r) == z3.Length(t), z3.Implies(z3.Not(z3.Contains(t, z3.StringVal(a))), r == t), *keep))
+    return Sym(STR, r)
+
+
 _ASCII_NO_UPPER = z3.Union(z3.Range(' ', '@'), z3.Range('[', '~'))
 _NO_UPPER_ASCII = z3.Star(_ASCII_NO_UPPER)
 _ASCII_GRAPH = z3.Range('!', '~')
@@ -148,7 +173,11 @@ def str_fun(I, name, s, args):
             I.p.ghost[key] = t     # pins the term (z3 reuses ids)
             # idempotent, length preserving except for U+0130 (not modelled here: see C01), identity on strings of
             # ASCII characters without upper-case letters
-            I.p.assume(z3.And(_LOWER(r) == r, z3.Implies(z3.InRe(t, _NO_UPPER_ASCII), r == t)))
+            exp = expanding_code_points()
+            has = z3.Or(*[z3.Contains(t, z3.StringVal(c)) for c in exp]) if exp else z3.BoolVal(False)
+            I.p.assume(z3.And(_LOWER(r) == r, z3.Implies(z3.InRe(t, _NO_UPPER_ASCII), r == t),
+                              z3.Length(r) == z3.Length(t) + _EXPAND(t), _EXPAND(t) >= 0,
+                              has == (_EXPAND(t) >= 1)))
         return Sym(STR, r)
     if name == 'upper':
         return Sym(STR, _UPPER(t))
